@@ -339,6 +339,9 @@ def run_case(cls, params, rec):
 	via = params.get("via", "capture")
 	X = encode(seqs, A, DT[params.get("xdtype", "int8")])
 	V = torch.tensor(variants, dtype=torch.int64).reshape(-1, WIDTH[fn])
+	# same values handed over in another memory layout
+	params, X, _ = gen.apply_layout(params, rec, X)
+	_, V, _ = gen.apply_layout(params, rec, V, "variants")
 	kind = analyse(fn, variants, B, L, A)
 
 	st, val, ncalls = execute(fn, X, V, left, via)
